@@ -71,13 +71,14 @@ def sep_join(rng, a, b):
 def build_attrs(rng, shape, px, py, box, spelling):
     """returns list of (name, value-string). spelling: 'long', 'alt', 'short'"""
     vx, vy = axis_values(box.x1, box.x2), axis_values(box.y1, box.y2)
-    alt = spelling == "alt"
+    # 'alt-x' / 'alt-y': the alternative spelling on one axis only (e.g. an ellipse with rx on x and height on y)
+    alt_x, alt_y = spelling in ("alt", "alt-x"), spelling in ("alt", "alt-y")
     attrs = {}
     for kind in px:
-        n = attr_name(shape, "x", kind, alt)
+        n = attr_name(shape, "x", kind, alt_x)
         attrs[n] = length_value(shape, n, vx[kind])
     for kind in py:
-        n = attr_name(shape, "y", kind, alt)
+        n = attr_name(shape, "y", kind, alt_y)
         attrs[n] = length_value(shape, n, vy[kind])
     if shape == "circle" and "r" in attrs:
         # r is one attribute for both axes; only valid when both axes ask for it
@@ -192,7 +193,7 @@ def run_shard(ctx):
     for shape in SHAPES:
         for px in PAIRS:
             for py in PAIRS:
-                for spelling in ("long", "alt", "short"):
+                for spelling in ("long", "alt", "short", "alt-x", "alt-y"):
                     structural += 1
                     if not ctx.mine(structural):
                         continue
